@@ -5,7 +5,7 @@ connections that carry nothing else (2, 3: opened by the attacker, 9: never open
 import random
 
 MSG_HOSTILE = ["garbage", "empty", "short_tx", "chal", "resp_bad", "blocktag", "tx_forged", "tx_phantom", "tx_overspend", "tx_wrap",
-               "tx_fee", "tx_atr", "tx_spv", "tx_issuance", "tx_noinputs", "tx_empty", "tx_manyslips", "gt_short", "gt_long", "gt_wrong",
+               "tx_fee", "tx_atr", "tx_spv", "tx_issuance", "tx_noinputs", "tx_typed_noinputs", "tx_empty", "tx_manyslips", "gt_short", "gt_long", "gt_wrong",
                "chainreq", "chainreq_far", "chainreq_zero", "hash_known", "hash_zero", "hash_far", "hash_unknown", "ping", "spv",
                "services", "services_bad", "ghostreq", "ghostreq_far", "ghost_empty", "ghost_fake", "api", "api_result", "api_error",
                "keylist", "keylist_big"]
@@ -141,6 +141,22 @@ def sweep_scenarios(rnd):
     return out
 
 
+def pair_scenarios(rnd):
+    """hostile inputs that only bite in pairs: a block with id 0 on a known parent and a child of it"""
+    out = []
+    for blk in (2, 3):
+        for authd in (False, True):
+            steps = [dict(op="open", conn=1), dict(op="auth", conn=1, kind="honest"), dict(op="open", conn=2, hostile=True)]
+            if authd:
+                steps.append(dict(op="auth", conn=2, kind="hostile", hostile=True))
+            steps += [dict(op="fetched", conn=2, kind="id_zero", blk=blk, n=1, hostile=True), dict(op="drain"),
+                      dict(op="fetched", conn=2, kind="id_zero_child", blk=blk, n=1, hostile=True), dict(op="drain"),
+                      dict(op="msg", conn=1, kind="hash_next", blk=blk), dict(op="fetched", conn=1, kind="next", blk=blk), dict(op="drain"),
+                      dict(op="tick", ms=1500), dict(op="drain")]
+            out.append(dict(g=20, hb=100, chain=5, pre=blk, steps=steps))
+    return out
+
+
 def _single(rnd, st, authd):
     steps = [dict(op="open", conn=1), dict(op="auth", conn=1, kind="honest")]
     if st["conn"] == 2:
@@ -148,14 +164,14 @@ def _single(rnd, st, authd):
         if authd:
             steps.append(dict(op="auth", conn=2, kind="hostile", hostile=True))
     steps += [dict(op="msg", conn=1, kind="hash_next", blk=2), st, dict(op="fetched", conn=1, kind="next", blk=2), dict(st),
-              dict(op="drain"), dict(st), dict(op="msg", conn=1, kind="hash_next", blk=3), dict(op="fetched", conn=1, kind="next", blk=3),
-              dict(op="drain")]
+              dict(op="drain"), dict(op="tick", ms=1500), dict(st), dict(op="msg", conn=1, kind="hash_next", blk=3),
+              dict(op="fetched", conn=1, kind="next", blk=3), dict(op="drain"), dict(op="tick", ms=1500), dict(op="drain")]
     return dict(g=20, hb=100, chain=5, pre=2, steps=steps)
 
 
 def scenarios(seed, n):
     rnd = random.Random(seed)
-    out = catalogue_scenarios(rnd) + sweep_scenarios(rnd)
+    out = catalogue_scenarios(rnd) + sweep_scenarios(rnd) + pair_scenarios(rnd)
     for i in range(n):
         out.append(scenario(rnd, hostile_p=rnd.choice([0.0, 0.3, 0.5, 0.7])))
     # the same inputs on a lite (spv) client: it trusts what it is given, so only crash freedom is checked
